@@ -93,6 +93,11 @@ let parse_op (toks : string list) : op =
   | ["cget"; c] -> OCGet (id c)
   | ["diff"; tn; told] -> ODiff (id tn, opt id told)
   | ["difflinks"; tn; told] -> ODiffLinks (id tn, opt id told)
+  | ["diffstop"; tn; told; n] -> ODiffStop (id tn, opt id told, nat_of_int (int_of_string n))
+  | ["difffail"; tn; told; n] -> ODiffFail (id tn, opt id told, nat_of_int (int_of_string n))
+  | ["diffcur"; tn; told] -> ODiffCur (id tn, opt id told)
+  | ["iterstop"; t; n] -> OIterStop (id t, nat_of_int (int_of_string n))
+  | ["seekstop"; t; k; n] -> OSeekStop (id t, parse_key k, nat_of_int (int_of_string n))
   | _ -> failwith ("bad op: " ^ String.concat " " toks)
 
 let show_kv (k, v) = show_key k ^ "=" ^ hex_of_bytes v
